@@ -13,6 +13,7 @@
 #include <boost/gil.hpp>
 #include <string>
 #include "common/vh.hpp"
+#include "common/pixtools.hpp"
 
 namespace k4 {
 namespace gil = boost::gil;
@@ -46,11 +47,14 @@ template <class Pixel, class Tag> struct ptr_tk {
     }
 };
 
-// ---- planar, three planes (rgb) inside one arena ------------------------------------------------
+// ---- planar, N = 2..5 planes inside one arena (views are built from a hand-made planar_pixel_iterator) ----
 template <class Pixel, class Tag> struct planar_tk {
     typedef typename gil::view_type_from_pixel<Pixel, true>::type view_t;
     typedef typename gil::channel_type<Pixel>::type ch_t;
+    typedef typename view_t::x_iterator xit;
+    typedef typename view_t::locator loc_t;
     typedef planar_tk mut_t;
+    static const int N = gil::num_channels<Pixel>::value;
     static const bool writable = true, has_identity = true;
     static std::string name() { return std::string(Tag::name()) + "-planar"; }
     static const int NVAR = 4, V_CONTIG = 0, V_PADDED = 1, V_SUB = 2;
@@ -61,14 +65,20 @@ template <class Pixel, class Tag> struct planar_tk {
     static long rows(int v, long h) { return v == 2 ? h + SH : h; }
     // planes are separated by one channel of slack except in the contiguous variant
     static long plane(int v, long w, long h) { return rowbytes(v, w) * rows(v, h) + (v == 0 ? 0 : CS); }
-    static size_t bytes(int v, long w, long h) { return (size_t)(3 * plane(v, w, h)); }
+    static size_t bytes(int v, long w, long h) { return (size_t)(N * plane(v, w, h)); }
+    static ch_t* pl(unsigned char* b, long plane_bytes, int k) { return (ch_t*)(void*)(b + k * plane_bytes); }
+    static xit first(unsigned char* b, long p, std::integral_constant<int, 2>) { return xit(pl(b, p, 0), pl(b, p, 1)); }
+    static xit first(unsigned char* b, long p, std::integral_constant<int, 3>) { return xit(pl(b, p, 0), pl(b, p, 1), pl(b, p, 2)); }
+    static xit first(unsigned char* b, long p, std::integral_constant<int, 4>) { return xit(pl(b, p, 0), pl(b, p, 1), pl(b, p, 2), pl(b, p, 3)); }
+    static xit first(unsigned char* b, long p, std::integral_constant<int, 5>) { return xit(pl(b, p, 0), pl(b, p, 1), pl(b, p, 2), pl(b, p, 3), pl(b, p, 4)); }
+    static view_t full(int v, unsigned char* b, long w, long h, long fw, long fh) {
+        return view_t(gil::point_t(fw, fh), loc_t(first(b, plane(v, w, h), std::integral_constant<int, N>()), rowbytes(v, w)));
+    }
     static view_t make(int v, unsigned char* b, long w, long h) {
-        const long pl = plane(v, w, h), rb = rowbytes(v, w);
-        ch_t* p0 = (ch_t*)(void*)b; ch_t* p1 = (ch_t*)(void*)(b + pl); ch_t* p2 = (ch_t*)(void*)(b + 2 * pl);
         switch (v) {
-        case 2: return gil::subimage_view(gil::planar_rgb_view(w + SW, h + SH, p0, p1, p2, rb), SX, SY, w, h);
-        case 3: return gil::flipped_up_down_view(gil::planar_rgb_view(w, h, p0, p1, p2, rb));
-        default: return gil::planar_rgb_view(w, h, p0, p1, p2, rb);
+        case 2: return gil::subimage_view(full(v, b, w, h, w + SW, h + SH), SX, SY, w, h);
+        case 3: return gil::flipped_up_down_view(full(v, b, w, h, w, h));
+        default: return full(v, b, w, h, w, h);
         }
     }
 };
@@ -155,16 +165,48 @@ template <class Base> struct const_tk {
     static view_t make(int v, unsigned char* b, long w, long h) { return view_t(Base::make(v, b, w, h)); }
 };
 
+// ---- a caller-supplied colour converter whose result depends on run-time member state ------------------
+inline uint64_t& cc_state() { static uint64_t s = 1; return s; }      // chosen per case by the harness
+struct stateful_cc {
+    uint64_t off;
+    stateful_cc() : off(0) {}
+    explicit stateful_cc(uint64_t o) : off(o) {}
+    template <class S, class D> void operator()(S const& src, D& dst) const {
+        gil::default_color_converter()(src, dst);
+        pt::pixval v = pt::get_pix(dst);
+        for (int c = 0; c < v.n; ++c) v.ch[c] = vh::mix(v.ch[c], off * 8 + (uint64_t)c);
+        pt::set_pix(dst, pt::norm_pix<D>(v));
+    }
+};
+
 // ---- derived: color_converted_view (read-only source; dereference yields a value) --------------------
-template <class Base, class DstP, class Tag> struct cc_tk {
-    typedef typename gil::color_converted_view_type<typename Base::view_t, DstP>::type view_t;
+// Stateful=false: default_color_converter; Stateful=true: color_converted_view(src, stateful_cc(cc_state()))
+template <class Base, class DstP, class Tag, bool Stateful = false> struct cc_tk {
+    typedef typename std::conditional<Stateful, stateful_cc, gil::default_color_converter>::type cc_t;
+    typedef typename gil::color_converted_view_type<typename Base::view_t, DstP, cc_t>::type view_t;
     typedef Base mut_t;
+    typedef DstP value_t;
     static const bool writable = false, has_identity = false;
     static std::string name() { return Tag::name(); }
     static const int NVAR = Base::NVAR, V_CONTIG = Base::V_CONTIG, V_PADDED = Base::V_PADDED, V_SUB = Base::V_SUB;
     static const char* var(int i) { return Base::var(i); }
     static size_t bytes(int v, long w, long h) { return Base::bytes(v, w, h); }
-    static view_t make(int v, unsigned char* b, long w, long h) { return gil::color_converted_view<DstP>(Base::make(v, b, w, h)); }
+    static cc_t cc(std::true_type) { return stateful_cc(cc_state()); }
+    static cc_t cc(std::false_type) { return gil::default_color_converter(); }
+    static cc_t cc() { return cc(std::integral_constant<bool, Stateful>()); }
+    static view_t make(int v, unsigned char* b, long w, long h) { return gil::color_converted_view<DstP>(Base::make(v, b, w, h), cc()); }
+};
+
+// ---- what the per-pixel reference loop reads at (x,y) of a source instance (I has .v, the view, and .mv, the
+// writable view over the same pixels).  Memory-based kinds: the view's own (x,y) access.  Converting kinds: the
+// harness converts the underlying pixel itself with its own converter object, independent of the view's adaptor.
+template <class TK> struct reader {
+    typedef typename TK::view_t::reference result_t;
+    template <class I> static result_t at(I const& s, long x, long y) { return s.v(x, y); }
+};
+template <class Base, class DstP, class Tag, bool Stateful> struct reader<cc_tk<Base, DstP, Tag, Stateful>> {
+    typedef DstP result_t;
+    template <class I> static result_t at(I const& s, long x, long y) { DstP t = DstP(); cc_tk<Base, DstP, Tag, Stateful>::cc()(s.mv(x, y), t); return t; }
 };
 
 } // namespace k4
